@@ -47,23 +47,39 @@ def totalOn (sh : EventShape) (s e : Rat) (t : Nat → Rat) : Nat → Rat
 /-! ### several burns of one agent, one thrust slot
 
 `Celestial.finite_thrust` is a single slot.  `_prepEvents` resets it and lets every queued burn that
-is under way at the start of the call install its thrust (in queue order); during the call every
-root of a burn's event function installs that burn's callback result: the thrust function at the
-start of the burn, `None` at its end.  The slot at a time `t` of the call is the value installed by
-the latest root not after `t` (roots at equal times fire in queue order, the later one wins), or
-the value left by `_prepEvents` when no root has fired yet. -/
+is under way at the start of the call install its thrust (in queue order).  During the call every root
+of a burn's event function is a callback: the start of the burn installs its thrust function; its end
+empties the slot - in the repaired code only if the slot still holds that burn's thrust
+(`OffShape.ownOnly`), so that the end of one burn cannot switch off another that begins at the same
+instant.  Callbacks happen in time order; roots that share an instant all fire, in queue order, in the
+repaired code (`TieShape.all`), while the unrepaired code lost all but the first (`TieShape.firstOnly`:
+the solver reports one terminal event per stop and the restart one ulp later is already past the
+others). -/
 
 abbrev BurnIv := Rat × Rat
 
 structure Change where
   time : Rat
-  val : Option BurnIv
+  burn : BurnIv
+  on : Bool
 deriving Repr, DecidableEq
 
 /-- how `_prepEvents` treats a burn that is *not* under way at the start of the call -/
 inductive PrepShape
   | keep      -- the code: the slot is left alone
   | clobber   -- a seeded variant: the slot is set to `None` (a later burn switches an active one off)
+deriving Repr, DecidableEq
+
+/-- `_applyEvents` at the end of a burn -/
+inductive OffShape
+  | ownOnly   -- repaired: the slot is emptied only if it holds this burn's thrust
+  | clobber   -- unrepaired: the slot is emptied
+deriving Repr, DecidableEq
+
+/-- roots that share an instant -/
+inductive TieShape
+  | all         -- repaired: all fire, in queue order
+  | firstOnly   -- unrepaired: only the first in queue order fires, the others are lost for this call
 deriving Repr, DecidableEq
 
 def prepSlotWith (ps : PrepShape) (burns : List BurnIv) (t0 : Rat) : Option BurnIv :=
@@ -79,42 +95,58 @@ def prepSlot (burns : List BurnIv) (t0 : Rat) : Option BurnIv := prepSlotWith .k
 def armedAfterPrep (b : BurnIv) (t0 : Rat) : Bool :=
   decide (b.1 < t0) && decide (t0 < b.2) && !(decide (b.2 - t0 < tol))
 
-/-- the roots of one burn's event function inside the call `[t0, t1]`, in time order, with the value
-its callback installs -/
+/-- the roots of one burn's event function inside the call `[t0, t1]`, in time order -/
 def rootsOf (b : BurnIv) (t0 t1 : Rat) : List Change :=
-  if armedAfterPrep b t0 then (if b.2 ≤ t1 then [⟨b.2, none⟩] else [])
+  if armedAfterPrep b t0 then (if b.2 ≤ t1 then [⟨b.2, b, false⟩] else [])
   else if t0 ≤ b.1 ∧ b.1 ≤ t1 then
-    (if b.2 - b.1 < tol then [⟨b.1, none⟩]
-     else ⟨b.1, some b⟩ :: (if b.2 ≤ t1 then [⟨b.2, none⟩] else []))
+    (if b.2 - b.1 < tol then [⟨b.1, b, false⟩]
+     else ⟨b.1, b, true⟩ :: (if b.2 ≤ t1 then [⟨b.2, b, false⟩] else []))
   else []
 
 def allRoots (burns : List BurnIv) (t0 t1 : Rat) : List Change := burns.flatMap (rootsOf · t0 t1)
 
-/-- the latest change not after `t`; among equal times the one later in the list -/
-def latest : List Change → Rat → Option Change
-  | [], _ => none
-  | c :: l, t =>
-    match latest l t with
-    | some d => if c.time ≤ t ∧ d.time < c.time then some c else some d
-    | none => if c.time ≤ t then some c else none
-
-/-- the thrust slot at time `t` of the call `[t0, t1]` -/
-def slotAtWith (ps : PrepShape) (burns : List BurnIv) (t0 t1 t : Rat) : Option BurnIv :=
-  match latest (allRoots burns t0 t1) t with
-  | none => prepSlotWith ps burns t0
-  | some c => c.val
-
-def slotAt (burns : List BurnIv) (t0 t1 t : Rat) : Option BurnIv := slotAtWith .keep burns t0 t1 t
-
-/-- the callbacks of one call in the order in which they happen: `_prepEvents` first (queue order), then the
-roots by time (equal times in queue order) -/
+/-- insert before the first callback that is not earlier (so that what stood earlier in the queue stays earlier among equal times) -/
 def insertChange (c : Change) : List Change → List Change
   | [] => [c]
-  | d :: l => if c.time < d.time then c :: d :: l else d :: insertChange c l
+  | d :: l => if c.time ≤ d.time then c :: d :: l else d :: insertChange c l
 
-def timeline (burns : List BurnIv) (t0 t1 : Rat) : List Change :=
-  let prep := burns.filterMap fun b =>
-    if b.1 < t0 ∧ t0 < b.2 then some ⟨t0, if b.2 - t0 < tol then none else some b⟩ else none
-  prep ++ (allRoots burns t0 t1).foldl (fun acc c => insertChange c acc) []
+/-- stable insertion sort by time -/
+def sortChanges : List Change → List Change
+  | [] => []
+  | c :: l => insertChange c (sortChanges l)
+
+/-- the callbacks of the call in the order in which they happen: by time, equal times in queue order -/
+def sortedRoots (burns : List BurnIv) (t0 t1 : Rat) : List Change := sortChanges (allRoots burns t0 t1)
+
+/-- keep only the first of every run of equal times -/
+def dedupFrom (last : Option Rat) : List Change → List Change
+  | [] => []
+  | c :: l => if last = some c.time then dedupFrom last l else c :: dedupFrom (some c.time) l
+
+def firedRoots (tie : TieShape) (burns : List BurnIv) (t0 t1 : Rat) : List Change :=
+  match tie with
+  | .all => sortedRoots burns t0 t1
+  | .firstOnly => dedupFrom none (sortedRoots burns t0 t1)
+
+def applyChange (off : OffShape) (slot : Option BurnIv) (c : Change) : Option BurnIv :=
+  if c.on then some c.burn
+  else match off with
+    | .clobber => none
+    | .ownOnly => if slot = some c.burn then none else slot
+
+/-- the thrust slot at time `t` of the call `[t0, t1]` -/
+def slotAtG (ps : PrepShape) (tie : TieShape) (off : OffShape) (burns : List BurnIv) (t0 t1 t : Rat) : Option BurnIv :=
+  ((firedRoots tie burns t0 t1).filter (fun c => decide (c.time ≤ t))).foldl (applyChange off) (prepSlotWith ps burns t0)
+
+def slotAt (burns : List BurnIv) (t0 t1 t : Rat) : Option BurnIv := slotAtG .keep .all .ownOnly burns t0 t1 t
+
+/-- the callbacks made by `_prepEvents` (queue order): the burns under way -/
+def prepCallbacks (burns : List BurnIv) (t0 : Rat) : List Change :=
+  burns.filterMap fun b =>
+    if b.1 < t0 ∧ t0 < b.2 then some ⟨t0, b, !(decide (b.2 - t0 < tol))⟩ else none
+
+/-- the slot at the end of the call -/
+def slotEnd (burns : List BurnIv) (t0 t1 : Rat) : Option BurnIv :=
+  (sortedRoots burns t0 t1).foldl (applyChange .ownOnly) (prepSlot burns t0)
 
 end RV.Burn
